@@ -440,6 +440,24 @@ def _forall(v, body_fn, extra_rng=None):
     return z3.ForAll([j], z3.And(qs.conj(), z3.Implies(rng, body)))
 
 
+def inst_points(c):
+    """Index terms at which universally quantified facts are also asserted as explicit instances (opt-in per unit through
+    c.ghost["instantiate_at"]; with "instantiate_at_witnesses" also at every witness known on the path).  Instances are consequences
+    of the quantified fact, evaluated outside any quantifier scope so that the element-wise arithmetic axioms are available there."""
+    pts = list(c.ghost.get("instantiate_at", ()))
+    if c.ghost.get("instantiate_at_witnesses"):
+        pts += [w for w in c.witnesses if not any(w.eq(p_) for p_ in pts)]
+    return pts
+
+
+def _instances(v, guard, body_fn):
+    c = cur()
+    if c.qscopes:
+        return
+    for w in inst_points(c):
+        c.assume(z3.Implies(z3.And(guard, v.indom(w)), tobool(body_fn(w))))
+
+
 def _at_const(v, nm="vcx_w"):
     c = cur()
     w = z3.Int(c.fresh_name(nm))
@@ -468,7 +486,8 @@ def reduce_all(v):
     q = z3.ForAll([j], z3.Implies(rng, bt))
 
     def on_true(ctx):
-        return z3.ForAll([j], z3.And(ax, z3.Implies(rng, bt)))
+        extra = [z3.Implies(v.indom(w), tobool(v.at(w))) for w in inst_points(ctx)] if not ctx.qscopes else []
+        return z3.And(z3.ForAll([j], z3.And(ax, z3.Implies(rng, bt))), *extra)
 
     def on_false(ctx):
         w = z3.Int(ctx.fresh_name("vcx_sk"))
@@ -494,7 +513,8 @@ def reduce_any(v):
         return z3.substitute(z3.And(ax, rng, bt), (j, w))
 
     def on_false(ctx):
-        return z3.ForAll([j], z3.And(ax, z3.Implies(rng, z3.Not(bt))))
+        extra = [z3.Implies(v.indom(w), z3.Not(tobool(v.at(w)))) for w in inst_points(ctx)] if not ctx.qscopes else []
+        return z3.And(z3.ForAll([j], z3.And(ax, z3.Implies(rng, z3.Not(bt)))), *extra)
     return SB(q, on_true=on_true, on_false=on_false)
 
 
@@ -521,9 +541,11 @@ def _reduce_ext(v, nanaware, is_min, initial=None, name="red"):
         some_nan = z3.And(v.indom(wn), ewn.nan) if ini is None else z3.Or(z3.And(v.indom(wn), ewn.nan), ini.nan)
         c.assume(z3.Implies(m.nan, some_nan))
         c.assume(z3.Implies(z3.Not(m.nan), _forall(v, lambda i: z3.Not(v.at(i).nan))))
+        _instances(v, z3.Not(m.nan), lambda i: z3.Not(v.at(i).nan))
         if ini is not None:
             c.assume(z3.Implies(z3.Not(m.nan), z3.Not(ini.nan)))
         c.assume(z3.Implies(z3.Not(m.nan), _forall(v, lambda i: le(m.r, v.at(i).r))))
+        _instances(v, z3.Not(m.nan), lambda i: le(m.r, v.at(i).r))
         att = z3.And(v.indom(w), ew.r == m.r)
         if ini is not None:
             att = z3.Or(att, ini.r == m.r)
@@ -798,6 +820,69 @@ class Concat:
     def __getitem__(self, k):
         raise Unsupported("indexing into a symbolic concatenation")
 
+
+
+# ---- the Python builtin max() over an array (sequential semantics: `if item > current: current = item`) -----------------------------
+def _fold_pymax(has, val, p):
+    """One part of the sequence.  (has, val): whether an element was seen so far and the running value.  Exact semantics of the
+    sequential fold: a NaN in first position stays (nothing compares greater than NaN), any later NaN is skipped."""
+    c = cur()
+    nm = c.fresh_name("pymax")
+    r = SF(z3.Real(nm), z3.Bool(nm + "?nan"), True)
+    c.assume(z3.And(NINF <= r.r, r.r <= PINF))
+    has2 = z3.Bool(nm + "?has")
+    cnt = count_guard(p).t if not p.dense() else p.n
+    f = z3.Int(c.fresh_name("vcx_first"))
+    w = z3.Int(c.fresh_name("vcx_w"))
+    c.witnesses += [f, w]
+    ef, ew = p.at(f), p.at(w)
+    c.assume(z3.Implies(cnt > 0, z3.And(p.indom(f), _forall(p, lambda j: z3.Implies(j < f, FALSE)) if p.dense() else
+                                        z3.And(p.indom(f), _forall_base(p, lambda j: z3.Implies(z3.And(j < f), z3.Not(p.g(j))))))))
+    if p.dense():
+        c.assume(z3.Implies(cnt > 0, f == 0))
+    le_all = _forall(p, lambda j: z3.Implies(z3.Not(p.at(j).nan), p.at(j).r <= r.r))
+    attained = z3.And(p.indom(w), z3.Not(ew.nan), ew.r == r.r)
+    carried_nan = z3.And(has, val.nan)
+    carried_num = z3.And(has, z3.Not(val.nan))
+    start = z3.And(z3.Not(has), cnt > 0)
+    c.assume(has2 == z3.Or(has, cnt > 0))
+    c.assume(z3.Implies(carried_nan, r.nan))
+    c.assume(z3.Implies(carried_num, z3.And(z3.Not(r.nan), r.r >= val.r, le_all, z3.Or(r.r == val.r, attained))))
+    c.assume(z3.Implies(z3.And(start, ef.nan), r.nan))
+    c.assume(z3.Implies(z3.And(start, z3.Not(ef.nan)), z3.And(z3.Not(r.nan), le_all, attained)))
+    _instances(p, z3.And(z3.Not(r.nan), z3.Or(carried_num, start)), lambda j: z3.Implies(z3.Not(p.at(j).nan), p.at(j).r <= r.r))
+    return has2, r
+
+
+def _forall_base(v, body_fn):
+    """ForAll j in [0, n): body_fn(j)  (over base positions, whatever the guard)"""
+    c = cur()
+    j = z3.Int(c.fresh_name("vcx_i"))
+    with QScope(c, j) as qs:
+        body = tobool(body_fn(j))
+    return z3.ForAll([j], z3.And(qs.conj(), z3.Implies(z3.And(0 <= j, j < v.n), body)))
+
+
+def py_seq_max(seq, default=None, has_default=False):
+    import numpy as np
+    parts = seq.parts if isinstance(seq, Concat) else [seq]
+    has, val = FALSE, SF.lift(0.0)
+    for p in parts:
+        if not isinstance(p, SV):
+            for e in np.asarray(p, dtype=float).reshape(-1):
+                e = SF.lift(float(e))
+                val = ite(has, ite(z3.Or(val.nan, z3.Not(tobool(e > val))), val, e), e)
+                has = TRUE
+            continue
+        if p.kind != "f":
+            raise Unsupported("max() over a non-float vector")
+        has, val = _fold_pymax(has, val, p)
+    c = cur()
+    if c.branch(SB(z3.Not(has))):
+        if has_default:
+            return default
+        raise ValueError("max() arg is an empty sequence")
+    return val
 
 
 # ---- minimal 2-D arrays ------------------------------------------------------------------------------------------------
